@@ -37,14 +37,26 @@ RULE = ("E1a: random real temporary trees (nested directories, empty and non-emp
         "then the consumer is dropped, stops using the file, or its sub-plan is dropped.  E3: harness/clean_e3gen.py "
         "(nested sub-plans, static() lines dropped while in use) and harness/e3_gen.py histories with user tampering, "
         "--no-clean and targets: whatever vanishes during a build was written by a step command, is not a source or "
-        "script of the project, and is unmodified unless volatile.")
+        "script of the project, and is unmodified unless volatile.  "
+        "Symbolic links (harness/clean_own.py, lstat snapshots): the same three entry points on trees where outputs were "
+        "replaced, between record and cleanup, by different content / same content on a new inode / a link to a user file "
+        "with other content / a link to a copy / the file moved away and linked / a link to another output / a dangling "
+        "link / a link to itself / a link to a directory / an empty or non-empty directory / nothing; outputs that steps "
+        "made as links (to another output sorting before or after, to a static file); volatile outputs; user files and "
+        "user links inside directories scheduled for removal.  Oracle (implementation only, runs when the translator "
+        "failed): whatever vanished is owned (declared output, not static, selected by this cleanup) and, unless volatile "
+        "or --unsafe, reading through the path gave a regular file with exactly the recorded content; nothing else is "
+        "altered or created.  E1a/E1b/E1c-links: the link-aware model against the real code on those trees.  serve() level: "
+        "a dropped step's output replaced by each shape before the cleaning build (with and without an intermediate "
+        "--no-clean build); tampering of e3 histories also replaces outputs by links to user files.")
 TRUSTED_BASE = [
     "Coq 8.16.1 kernel (vm_compute in Examples, generated-table facts and the correspondence evaluation)",
     "Print Assumptions: Closed under the global context for every C06 theorem",
     "translator/gen_clean.py (guard chain and cleanup calls of Builder.finalize, writers of file.state, "
     "_HASH_TRANSITIONS, file_clear_hash WHEN clause, before_delete states, revert SQL, clean.py SELECT_OUTPUTS, "
-    "removal call sites and users of to_be_deleted)",
-    "harness/clean_common.py + clean_e3gen.py + p_c06.py (tree snapshots through FileHash.refreshed, graph dump by SQL, "
+    "removal call sites and users of to_be_deleted; the kind branching of remove_deletable_files / clean and the "
+    "one-loop / two-loop shape read from the AST)",
+    "harness/clean_common.py + clean_own.py + clean_e3gen.py + p_c06.py (tree snapshots through FileHash.refreshed, graph dump by SQL, "
     "Gallina printers, scenario generators)",
     "model evaluated inside Coq by vm_compute; no extraction",
 ]
@@ -53,7 +65,8 @@ ASSUMPTIONS = [
     "A-norm: labels and queued directories are normalised relative paths",
     "to_be_deleted is empty when finalize starts (its only writers are File.before_delete, revert_optional_steps and "
     "mark_dir_to_be_deleted, all called from the cleanup branch of Builder.finalize which ends by clearing it: checked by the translator)",
-    "no symbolic links; no concurrent writer during the cleanup itself",
+    "A-links: only the last component of a path is ever a symbolic link (directories on the way are real), link targets "
+    "stay inside the project; no concurrent writer during the cleanup itself",
     "file rows in BUILT/OUTDATED carry a hash (CHECK constraint)",
 ]
 
